@@ -272,27 +272,40 @@ Fixpoint mapi_from {A B} (j : nat) (f : nat -> A -> B) (l : list A) : list B :=
 
 Record loopin := mkLoop { l_offset : Q; l_delay : nat; l_user : bool; l_phis : list Q }.
 
-(* the `for loop, offset in enumerate(phi_loop)` loop; corr_prev is corr_previous_loop *)
-Fixpoint update_loops (pi : Q) (loops : list loopin) (corr_prev : nat -> Q) : list (list Q) :=
+(* np.any(corr_previous_loop) over the prog_length entries *)
+Definition any_nonzero (cp : nat -> Q) (T : nat) : bool := existsb (fun j => negb (Qeq_bool (cp j) 0)) (seq 0 T).
+
+(* Two variants of the `for loop, offset in enumerate(phi_loop)` loop, selected by `fx`:
+   fx = false  the code as it stands:  `if user_offsets[loop]: continue`
+   fx = true   the proposed repair (.work/C12/fix-borealis-partial-user-offsets.diff): a user-set loop is skipped only
+               when there is no correction of the previous loop to undo; otherwise it is processed with corr_loop = 0.
+   corr_prev is corr_previous_loop. *)
+Definition eff_corr (fx : bool) (L : loopin) : nat -> Q :=
+  if fx && l_user L then (fun _ => 0) else corr_of (l_offset L) (l_delay L).
+Definition skips (fx : bool) (L : loopin) (cp : nat -> Q) : bool :=
+  l_user L && (negb fx || negb (any_nonzero cp (length (l_phis L)))).
+
+Fixpoint update_loops (fx : bool) (pi : Q) (loops : list loopin) (corr_prev : nat -> Q) : list (list Q) :=
   match loops with
   | [] => []
   | L :: rest =>
-      if l_user L then l_phis L :: update_loops pi rest corr_prev
+      if skips fx L corr_prev then l_phis L :: update_loops fx pi rest corr_prev
       else
-        let corr := corr_of (l_offset L) (l_delay L) in
+        let corr := eff_corr fx L in
         mapi_from 0 (fun j phi => fix_phase pi (- (1 # 2) * pi) ((1 # 2) * pi) (phi + corr j - corr_prev j)) (l_phis L)
-        :: update_loops pi rest corr
+        :: update_loops fx pi rest corr
   end.
 
-Definition update_params (pi : Q) (loops : list loopin) : list (list Q) :=
-  update_loops pi loops (fun _ => 0).
+Definition update_params (fx : bool) (pi : Q) (loops : list loopin) : list (list Q) :=
+  update_loops fx pi loops (fun _ => 0).
 
 (* ------------------------------------------------------------------------------------------ *)
 (** * 5. Borealis.compile: insertion of missing loop-offset gates *)
 Close Scope Q_scope.
 (* a command as the loop sees it: type(op), set of wires (sorted list), and whether _is_loop_offset holds;
    `tag` identifies the command object (layout commands and user commands carry different tags) *)
-Record bcmd := mkB { b_type : nat; b_wires : list nat; b_off : bool; b_tag : nat }.
+Record bcmd := mkB { b_type : nat; b_wires : list nat; b_off : bool; b_tag : nat; b_free : bool }.
+(* b_free: the command carries an unbound template parameter (FreeParameter) other than a loop offset *)
 
 Fixpoint list_nat_eqb (a b : list nat) : bool :=
   match a, b with
@@ -304,24 +317,43 @@ Fixpoint list_nat_eqb (a b : list nat) : bool :=
 Definition ops_equal (c s : bcmd) : bool := Nat.eqb (b_type c) (b_type s) && list_nat_eqb (b_wires c) (b_wires s).
 
 (* for i, cmds in enumerate(zip(circuit, seq)) with seq.insert(i, cmds[0]) during the iteration,
-   followed by seq.extend(circuit[len(seq):]).  Returns the new seq and _user_offsets, or None for CircuitError *)
-Fixpoint insert_offsets (circ seq : list bcmd) : option (list bcmd * list bool) :=
+   followed by seq.extend(circuit[len(seq):]).  Returns the new seq and _user_offsets, or None for CircuitError.
+   fx = false: the code as it stands (no _user_offsets entry for loop offsets that are appended with the tail);
+   fx = true : the proposed repair (.work/C12/fix-borealis-truncated-program.diff): one `False` per appended offset,
+               CircuitError if an appended gate other than a loop offset has an unbound template parameter *)
+Fixpoint insert_offsets (fx : bool) (circ seq : list bcmd) : option (list bcmd * list bool) :=
   match circ with
   | [] => Some (seq, [])
   | c :: circ' =>
       match seq with
-      | [] => Some (circ, [])                         (* zip exhausted; extend with circuit[len(seq):] *)
+      | [] =>
+          if fx then
+            if forallb (fun x => b_off x || negb (b_free x)) circ
+            then Some (circ, map (fun _ => false) (filter b_off circ))
+            else None                                   (* CircuitError: a parametrised gate cannot be completed *)
+          else Some (circ, [])
       | s :: seq' =>
           if b_off c then
             if ops_equal c s then
-              match insert_offsets circ' seq' with
+              match insert_offsets fx circ' seq' with
               | Some (out, uo) => Some (s :: out, true :: uo) | None => None end
             else
-              match insert_offsets circ' seq with
+              match insert_offsets fx circ' seq with
               | Some (out, uo) => Some (c :: out, false :: uo) | None => None end
           else if ops_equal c s then
-            match insert_offsets circ' seq' with
+            match insert_offsets fx circ' seq' with
             | Some (out, uo) => Some (s :: out, uo) | None => None end
           else None
       end
   end.
+
+(* ------------------------------------------------------------------------------------------ *)
+(** * 6. Xunitary.compile: assembly of the returned circuit  `B + U1 + U2 + meas_seq` *)
+(* U1 = Interferometer(U11, mesh="rectangular_symmetric")._decompose(registers[:N]); U2 = deepcopy(U1) with every
+   register moved by N (`shift`) *)
+Definition xunitary_assemble {G : Type} (sq U1 : list G) (shift : G -> G) (meas : G) : list G :=
+  sq ++ U1 ++ map shift U1 ++ [meas].
+
+(* net action of a command list in a monoid of N x N unitaries: later commands multiply from the left *)
+Definition net {G M : Type} (mul : M -> M -> M) (one : M) (sem : G -> M) (l : list G) : M :=
+  fold_left (fun acc g => mul (sem g) acc) l one.
